@@ -8,7 +8,8 @@ a distinct code, every variant a distinct opcode, so the image reveals the choic
 from vf import core, isa as isamod
 from vf.model import encode, layout
 
-REGS = ['a', 'b', 'sp']
+# 'ah' also reads as a hexadecimal literal (A with a trailing H, in either letter case): it is a register all the same
+REGS = ['a', 'b', 'sp', 'ah']
 LABELS = {'lab_k': 0x21, 'lab_x': 0x33, 'zed': 0x44}     # 'zed' and 'lab_k' are also enumeration keys in some sets
 KEYS = {'zed': 1, 'one': 2, 'lab_k': 3}
 
@@ -34,15 +35,20 @@ def alt_pool(rng):
         'reg_a': {'type': 'register', 'register': 'a', 'bytecode': bc()},
         'reg_b': {'type': 'register', 'register': 'b', 'bytecode': bc()},
         'reg_sp': {'type': 'register', 'register': 'sp', 'bytecode': bc()},
+        'reg_ah': {'type': 'register', 'register': 'ah', 'bytecode': bc()},
         'ind_a': {'type': 'indirect_register', 'register': 'a', 'bytecode': bc()},
         'indoff_sp': {'type': 'indirect_register', 'register': 'sp', 'bytecode': bc(), 'offset': dict(a8)},
         'indoff_b': {'type': 'indirect_register', 'register': 'b', 'bytecode': bc(), 'offset': dict(a8)},
         'iidx_a': {'type': 'indirect_indexed_register', 'register': 'a', 'bytecode': bc(),
                    'index_operands': {'xb': {'type': 'register', 'register': 'b', 'bytecode': {'value': 1, 'size': 2}},
                                       'xn': {'type': 'numeric', 'argument': dict(a8), 'bytecode': {'value': 2, 'size': 2}}}},
+        # (the numeric index alternative is written in front of the enumeration one: index alternatives follow the same
+        # priority as the alternatives of an operand set, not their order in the definition)
         'idx_b': {'type': 'indexed_register', 'register': 'b', 'bytecode': bc(),
                   'index_operands': {'xa': {'type': 'register', 'register': 'a', 'bytecode': {'value': 1, 'size': 2}},
-                                     'xn': {'type': 'numeric', 'argument': dict(a8), 'bytecode': {'value': 2, 'size': 2}}}},
+                                     'xn': {'type': 'numeric', 'argument': dict(a8), 'bytecode': {'value': 2, 'size': 2}},
+                                     'xk': {'type': 'enumeration', 'bytecode': {'size': 2, 'value_dict': {k: 3 for k in KEYS}},
+                                            'argument': {'size': 8, 'byte_align': True, 'value_dict': {k: 0xC0 + v for k, v in KEYS.items()}}}}},
         'indnum': {'type': 'indirect_numeric', 'argument': dict(a8), 'bytecode': bc()},
         'defer': {'type': 'deferred_numeric', 'argument': dict(a8), 'bytecode': bc()},
         'key': {'type': 'enumeration', 'bytecode': {'size': 5, 'value_dict': {k: 20 + v for k, v in KEYS.items()}},
@@ -70,7 +76,7 @@ def operand_texts(rng):
     lab = rng.choice(sorted(LABELS))
     sp = rng.choice(['', ' '])
     return [
-        {'cls': 'reg', 'r': r, 'text': r},
+        {'cls': 'reg', 'r': r, 'text': r if rng.random() < 0.7 else r.upper()},
         {'cls': 'ind', 'r': r, 'text': f'[{sp}{r}{sp}]'},
         {'cls': 'indoff', 'r': r, 'e': e, 'text': f'[{r}{sp}+{sp}{e}]'},
         {'cls': 'indoff', 'r': r, 'e': LABELS[lab], 'text': f'[{r}+{lab}]', 'lab': lab},
@@ -121,6 +127,10 @@ def accepts(name, conf, o, addr):
                     return {'id': name, 'index': {'id': iid}}
             return None
         if c == want_num:
+            if o.get('lab') and 'expr' not in o and o['text'].replace(' ', '').endswith('+' + o['lab']):
+                for iid, ic in conf['index_operands'].items():
+                    if ic['type'] == 'enumeration' and o['lab'] in ic['argument']['value_dict']:
+                        return {'id': name, 'index': {'id': iid, 'key': o['lab']}, 'index_key': True}
             for iid, ic in conf['index_operands'].items():
                 if ic['type'] == 'numeric':
                     return {'id': name, 'index': {'id': iid, 'val': o['e']}}
@@ -174,7 +184,9 @@ class C13(core.Check):
             'positions, operand counts no variant takes and mixed-case mnemonics. Expected choice from the documented priority; '
             'expected bytes from the reference encoder. distinct_nontrivial = distinct (operand classes, accepting candidates, '
             'chosen candidate) tuples with >= 2 accepting candidates.')
-    assumptions = ('within one priority class of the statement (bracketed/indexed forms; keys and registers; numeric expressions) '
+    assumptions = ('the index alternatives of an indexed register follow the same priority as the alternatives of an operand set '
+                   '(register, then enumeration key, then numeric expression)',
+                   'within one priority class of the statement (bracketed/indexed forms; keys and registers; numeric expressions) '
                    'two alternatives that both accept a text make the case DONT_CARE',
                    'a specific-operand list whose length differs from count is not generated (malformed by C19)')
     chunk = 1500
@@ -186,7 +198,7 @@ class C13(core.Check):
         'chosen:variant>=2', 'chosen:specific', 'expect:ACCEPT', 'expect:REJECT',
         'later-candidate-after-nonaccepting-earlier', 'amb:disallowed-pair-mirrored-is-allowed', 'amb:two-specific-entries-accept',
         'amb:key-vs-relative-address', 'amb:decorated-register-vs-numeric', 'amb:implied-operand-entry-vs-shorter-variant',
-        'amb:out-of-range-literal-with-later-accepting-candidate', 'primer:earlier-statement-took-a-later-variant', 'amb:listed-combination-named-like-the-disallowed-pair']}
+        'amb:out-of-range-literal-with-later-accepting-candidate', 'primer:earlier-statement-took-a-later-variant', 'amb:listed-combination-named-like-the-disallowed-pair', 'amb:index-key-vs-index-expression', 'amb:register-that-reads-as-a-number']}
 
     def gen_isa(self, rng, force_empty=False, force_dp=False):
         self._dp_pair = None
@@ -479,8 +491,12 @@ class C13(core.Check):
                         tags.add('amb:bracketed-vs-numeric-set')
                     if o['cls'] == 'reg' and stmt['spec'] is None:
                         tags.add('amb:register-vs-numeric')
+                    if o['cls'] == 'reg' and o['r'] == 'ah' and len(acc) >= 1:
+                        tags.add('amb:register-that-reads-as-a-number')
                     if o['cls'] == 'idx' and o.get('lab'):
                         tags.add('amb:indexed-vs-label-expression')
+                    if op.get('index_key'):
+                        tags.add('amb:index-key-vs-index-expression')
             if 'reject:constraint' in tags and len(acc) >= 2 and any(o.get('big') for o in operands):
                 tags.add('amb:out-of-range-literal-with-later-accepting-candidate')
             if kind == 'ACCEPT' and any(o['cls'] == 'dreg' for o in operands):
